@@ -20,11 +20,11 @@ PROPS.update({
         "level_note": "trusted: Lean kernel; the ~150-line model of healthcheck.go (round + LTS, sequentially consistent steps); the child-process harness with wall-clock thresholds; as coded and proved: Stop() before Start() makes the checker unstoppable (call order not used by dcp.go)",
     },
     "C14": {
-        "streams": ["c14k", "sess-loop"],
+        "streams": ["c14k", "sess-loop", "c14w"],
         "audit": ["C14Keys.lean", "C14Loop.lean"],
         "modules": ["GoDcp.Props.C14Keys", "GoDcp.Props.C14Loop"],
         "clauses": ["C14"], "shrink": True,
-        "compare_parts": {"sess-loop": ["deliver", "savecall", "written", "nowrite", "track"]},
+        "compare_parts": {"sess-loop": {"parts": ["deliver", "savecall", "written", "nowrite", "track"], "tuples": "seq"}},
         "rule": "key-cp: real couchbase.getCheckpointID (via the additive verif-tagged export VerifCheckpointID) for group names drawn from a grammar "
                 "(letters, digits, ':', ':checkpoint:', ':instance:', 'all', the reserved prefixes, control / non-UTF-8 bytes, unicode, '.', empty, trailing digits): "
                 "all vb 0..1023 + 18 boundary ids up to 65535 for 6 (quick) / 24 (thorough) names, random (name, vb) pairs, adversarial pairs that move the "
